@@ -37,6 +37,36 @@ func todoFamily(c map[string]json.RawMessage) (interface{}, error) {
 			return nil, err
 		}
 	}
+	if boolean(c, "cli") {
+		// `coca todo -p dir -e exts`: coca_reporter/simple-todos.json
+		work, err := newWork()
+		if err != nil {
+			return nil, err
+		}
+		defer os.RemoveAll(work)
+		if _, err := cocaCli(work, "todo", "-p", dir, "-e", strings.Join(filters, ",")); err != nil {
+			return nil, err
+		}
+		b, err := getReport(work, "simple-todos.json")
+		if err != nil {
+			return nil, err
+		}
+		var ts []struct {
+			Assignee string
+			Filename string
+			Line     int
+			Message  string
+		}
+		if err := json.Unmarshal(b, &ts); err != nil {
+			return map[string]interface{}{"reportUnreadable": err.Error()}, nil
+		}
+		out := []map[string]interface{}{}
+		for _, t := range ts {
+			out = append(out, map[string]interface{}{"Assignee": t.Assignee, "Filename": strings.TrimPrefix(t.Filename, dir+string(os.PathSeparator)),
+				"Line": t.Line, "Message": t.Message})
+		}
+		return map[string]interface{}{"todos": out}, nil
+	}
 	todos := todo.NewTodoApp().AnalysisPath(dir, filters)
 	out := []map[string]interface{}{}
 	for _, t := range todos {
